@@ -468,6 +468,10 @@ class AttributeSet(TypedExpression):
                 binding.value = value
                 return
         new_binding = Binding(name=key, value=value)
+        if not self.values and self.inner_trivia:
+            # Comments of a set without bindings stay above the first binding.
+            new_binding.before = list(self.inner_trivia)
+            self.inner_trivia = []
         self.values.append(new_binding)
         if self.attrpath_order:
             self.attrpath_order.append(new_binding)
